@@ -150,3 +150,25 @@ def zero_branch_targets(cfg, callee_pat):
                 elif tt["otherwise"]:
                     out.append((nb, tt["otherwise"]))
     return out
+
+
+def bool_branch_edges(cfg, callee_pat, value=True):
+    """CFG edges taken when the bool returned by a call matching `callee_pat` equals `value`
+    (`switchInt(move _r) -> [0: F, otherwise: T]` directly after the call)."""
+    out = []
+    for b in cfg.blocks_calling(callee_pat):
+        t = cfg.term[b]
+        m = re.match(r"(_\d+)$", t["dest"].strip())
+        nb = t["target"]
+        if not m or not nb or nb not in cfg.term:
+            continue
+        tt = cfg.term[nb]
+        if tt["kind"] != "switch" or not re.search(r"(move|copy) %s$" % m.group(1), tt["operand"]):
+            continue
+        zero = [v for k, v in tt["targets"] if k == 0]
+        if value:
+            if tt["otherwise"]:
+                out.append((nb, tt["otherwise"]))
+        else:
+            out += [(nb, z) for z in zero]
+    return out
